@@ -218,6 +218,9 @@ pub struct ChainCase {
     pub steps: Vec<bool>,    // true = merge a side line, false = plain commit
     pub preset: usize,
     pub hash_len: u32,
+    /// rewrite a tracked file with identical bytes (new mtime) before each probe: still a clean checkout
+    #[serde(default)]
+    pub touch: bool,
 }
 fn check_chain(c: &ChainCase, cx: &mut Cx) -> Res {
     use crate::gitlab::{Op, Repo};
@@ -255,9 +258,13 @@ fn check_chain(c: &ChainCase, cx: &mut Cx) -> Res {
             return Ok(());
         }
     }
+    if c.touch && !(run(&mut repo, Op::TouchUnchanged) && run(&mut repo, Op::EmptyDir)) {
+        return Ok(());
+    }
     let schema = POST_PRESETS[c.preset % POST_PRESETS.len()];
     let x = format!("{}.{}.{}", c.tag[0], c.tag[1], c.tag[2]);
     cx.nt_if(!c.steps.is_empty());
+    cx.label_if(c.touch, "identical-rewrite-before-probe");
     cx.label_if(c.steps.iter().any(|m| *m), "merge-in-chain");
     for pep440 in [false, true] {
         let fmt = if pep440 { "pep440" } else { "semver" };
@@ -275,6 +282,9 @@ fn check_chain(c: &ChainCase, cx: &mut Cx) -> Res {
     for (i, merge) in c.steps.iter().enumerate() {
         let op = if *merge { Op::Merge { other: 0, third: None, time_skew: -50_000 } } else { Op::Commit { time_skew: if i % 2 == 0 { -100_000 } else { 50_000 } } };
         if !run(&mut repo, op) {
+            return Ok(());
+        }
+        if c.touch && !run(&mut repo, Op::TouchUnchanged) {
             return Ok(());
         }
         for (k, pep440) in [false, true].into_iter().enumerate() {
@@ -348,8 +358,8 @@ pub fn property() -> Property {
         "git-chains",
         (100, 1_500),
         |tier| {
-            ((0u64..30, 0u64..30, 0u64..30), any::<bool>(), proptest::option::weighted(0.7, 0usize..10), 0u8..3, proptest::collection::vec(prop::bool::weighted(0.25), 0..tier.pick(6, 12)), 0usize..7, 1u32..=9)
-                .prop_map(|((a, b, c), v_prefix, branch, before, steps, preset, hash_len)| ChainCase { tag: [a, b, c], v_prefix, branch, before, steps, preset, hash_len })
+            ((0u64..30, 0u64..30, 0u64..30), any::<bool>(), proptest::option::weighted(0.7, 0usize..10), 0u8..3, proptest::collection::vec(prop::bool::weighted(0.25), 0..tier.pick(6, 12)), 0usize..7, 1u32..=9, prop::bool::weighted(0.4))
+                .prop_map(|((a, b, c), v_prefix, branch, before, steps, preset, hash_len, touch)| ChainCase { tag: [a, b, c], v_prefix, branch, before, steps, preset, hash_len, touch })
                 .boxed()
         },
         check_chain,
